@@ -80,6 +80,16 @@ SEEDS = {
     "c08-5": ("C08", "breadth-first collecting run with if_all_agree=True, group >= 2, a line an earlier member rejects and a later member matches", ["C08"]),
     "c09-5": ("C09", "group of >= 2 members whose variables differ (vars.json written from the merged group variables)", ["C09"]),
     "c10-5": ("C10", "one long-lived instance resolving the same :last/:first reference before and after a newer run of the group", ["C10"]),
+    "c11-5": ("C11", "add(name, src), an IN-PLACE edit of src, then reading the stored bytes of the current or an older version", ["C11"]),
+    "c12-5": ("C12", "a group member whose id: or name: value starts with a digit, selected by that identity", ["C12"]),
+    "c13-5": ("C13", "advance(n) firing so close to the end that it reaches the file's last line; file without a trailing blank", ["C13"]),
+    "c14-5": ("C14", "latch and asbool (no nocontrib, no onchange), x latched, a later falsy y with the rest of the line matching", ["C14"]),
+    "c15-5": ("C15", "an outer comment whose whole stripped text is at most 3 characters and carries a field (q:7)", ["C15"]),
+    "c16-5": ("C16", "print-mode: no-default on a CsvPath that has no standard-out printer and at least one custom printer", ["C16", "C15"]),
+    "c17-5": ("C17", "a string (or regex) term that contains a line break", ["C17"]),
+    "c18-5": ("C18", "an abort under a policy that contains quiet together with raise and collect", ["C18", "C05"]),
+    "c19-5": ("C19", "a job whose first component warns during the validity check (regex with a FutureWarning) run first vs after another job", ["C19"]),
+    "c20-5": ("C20", "a variable reference with a tracking key whose final value is falsy (0, False, empty)", ["C20"]),
     "c02-1": ("C02", "lone reversed range whose low bound is 0 ([3-0]) with record 0 non-blank and a later non-blank record in range", ["C02"]),
     "c03-1": ("C03", "first() on a value first seen on line 0 that re-appears later; scan must include line 0", ["C03"]),
     "c05-1": ("C05", "validation-mode whose FIRST token is no-stop, a non-raising error, and at least one more line after it", ["C05"]),
